@@ -279,7 +279,17 @@ def run_scenario(opts, outs, layout, recs1, recs2, wd, report=None, want_json=Tr
     argv = build_argv(opts, outs, layout, outd, inputs, report=report, json_path=jpath, cores=cores)
     a1, a2 = make_adapters(opts)
     router = Router(opts, outs, layout, a1, a2)
-    r = clih.run_cli(argv)
+    if cores > 1:
+        # several cores: the real runner on the virtual multiprocessing layer (default schedule), small chunks
+        from . import vmp
+
+        argv = ["--buffer-size", "3000"] + argv
+        sched, r, exc = vmp.run(lambda: clih.run_cli(argv), policy="fair")
+        if r is None or sched.deadlock:
+            r = clih.CliResult()
+            r.exit, r.exc = "FAILED", f"deadlock={sched.deadlock} exception={exc!r}"
+    else:
+        r = clih.run_cli(argv)
     st = dict(reads=len(recs1), argv=argv, categories={}, disagreeing_pairs=0, multi_filter_reads=0)
     if r.exit != 0:
         V.append(("cli", f"cutadapt failed: exit={r.exit} {r.exc} {r.errors()[:1]}", {}))
